@@ -227,6 +227,23 @@ func runReplays(bin, work string, paths []string, regionsActive bool) ([]replayR
 	out, err := cmd.CombinedOutput()
 	b, rerr := os.ReadFile(filepath.Join(dir, "replay-results.json"))
 	if rerr != nil {
+		if cf, ok := readCrashCase(dir); ok {
+			// a replayed case killed the process (fatal runtime error): find which one it was
+			want := new(bytes.Buffer)
+			_ = json.Compact(want, cf.Args)
+			for _, p := range paths {
+				var rf replayFile
+				fb, e := os.ReadFile(p)
+				if e != nil || json.Unmarshal(fb, &rf) != nil || rf.Check != cf.Check {
+					continue
+				}
+				have := new(bytes.Buffer)
+				_ = json.Compact(have, rf.Args)
+				if len(paths) == 1 || bytes.Equal(have.Bytes(), want.Bytes()) {
+					return []replayResult{{Path: p, Property: rf.Property, Check: rf.Check, Violated: true, Message: "process died during replay:\n" + tail(out, 1500)}}, nil
+				}
+			}
+		}
 		if len(paths) == 1 {
 			if fl, _ := filepath.Glob(filepath.Join(dir, "inflight-*.json")); len(fl) > 0 {
 				// the single replayed case aborted the process (e.g. the race detector reported a data race)
@@ -278,6 +295,49 @@ func doReplay(path string, keep bool) int {
 	}
 	fmt.Printf("replay %s: property %s holds on this case\n", path, r.Property)
 	return 0
+}
+
+// readCrashCase returns the evaluation that was in progress when a harness
+// process died (see "crash guard" in harness/framework.go), as a replay file.
+func readCrashCase(dir string) (replayFile, bool) {
+	b, err := os.ReadFile(filepath.Join(dir, "inflight-case.bin"))
+	if err != nil || len(b) < 4 {
+		return replayFile{}, false
+	}
+	n := int(b[0]) | int(b[1])<<8 | int(b[2])<<16 | int(b[3])<<24
+	if n <= 0 || 4+n > len(b) {
+		return replayFile{}, false
+	}
+	body := b[4 : 4+n]
+	i := bytes.IndexByte(body, '\n')
+	if i <= 0 || !json.Valid(body[i+1:]) {
+		return replayFile{}, false
+	}
+	check := string(body[:i])
+	prop := check
+	if j := strings.IndexByte(check, '.'); j > 0 {
+		prop = check[:j]
+	}
+	return replayFile{Property: prop, Check: check, Args: append(json.RawMessage(nil), body[i+1:]...)}, true
+}
+
+// confirmCrash re-runs a case that was in progress when a shard died, alone in a
+// fresh process. Only a case that fails there as well (kills the process again,
+// or is reported as a violation by its check) is attributed to the code under test.
+func confirmCrash(bin, work string, idx int, rf replayFile, shardOut []byte) (string, bool) {
+	rf.Message = "the process died while this case was being evaluated (fatal runtime error, not a recoverable panic):\n" + tail(shardOut, 1800)
+	dir := filepath.Join(work, fmt.Sprintf("crash-%d", idx))
+	os.MkdirAll(dir, 0o755)
+	b, _ := json.MarshalIndent(rf, "", " ")
+	path := filepath.Join(dir, "fail-"+rf.Check+".json")
+	if os.WriteFile(path, b, 0o644) != nil {
+		return "", false
+	}
+	res, err := runReplays(bin, dir, []string{path}, true)
+	if err != nil || len(res) != 1 || res[0].Error != "" || !res[0].Violated {
+		return "", false
+	}
+	return path, true
 }
 
 type shardResult struct {
@@ -415,6 +475,17 @@ func runProperty(id string, p propSpec, tier string, seed uint64, keep bool) int
 			fails, _ = filepath.Glob(filepath.Join(r.dir, "inflight-*.json"))
 			if len(fails) > 0 {
 				fmt.Printf("shard %d aborted (exit %d):\n%s\n", r.idx, r.exit, tail(r.output, 2500))
+			}
+		}
+		if len(fails) == 0 {
+			if cf, ok := readCrashCase(r.dir); ok {
+				if path, confirmed := confirmCrash(bin, work, r.idx, cf, r.output); confirmed {
+					fmt.Printf("shard %d died (exit %d) while evaluating %s; the case kills a fresh process as well\n", r.idx, r.exit, cf.Check)
+					fails = []string{path}
+				} else {
+					infra = fmt.Sprintf("shard %d exited %d while evaluating %s, but the case does not reproduce in a fresh process (inconclusive):\n%s", r.idx, r.exit, cf.Check, tail(r.output, 3000))
+					continue
+				}
 			}
 		}
 		if len(fails) == 0 {
